@@ -106,14 +106,21 @@ class FileSystemLoader(BaseLoader):
 
     async def get_source_async(
         self,
-        env: Environment,  # noqa: ARG002
+        env: Environment,
         template_name: str,
         *,
-        context: RenderContext | None = None,  # noqa: ARG002
-        **kwargs: object,  # noqa: ARG002
+        context: RenderContext | None = None,
+        **kwargs: object,
     ) -> TemplateSource:
         """Get source information for a template."""
         loop = asyncio.get_running_loop()
+        if type(self).get_source is not FileSystemLoader.get_source:
+            # A subclass that customizes `get_source()` only. Asynchronous callers
+            # get the same template source as synchronous ones.
+            return await loop.run_in_executor(
+                None,
+                partial(self.get_source, env, template_name, context=context, **kwargs),
+            )
         source_path = await loop.run_in_executor(None, self.resolve_path, template_name)
         source, mtime = await loop.run_in_executor(None, self._read, source_path)
         return TemplateSource(
